@@ -12,8 +12,13 @@ def _c19_pre(ov, tier, seed):
 def _c19_post(ev):
     ev["coverage"]["constants_table"] = getattr(_c19_pre, "info", {})
 
-def _c07_after(prop, tier, rc):
-    """Engine M: release-profile semantics of the operators, from MIR (tools/mir2smt.py)."""
+def _c14_after(prop, tier, rc):
+    return _c07_after(prop, tier, rc, gdt=True)
+
+
+def _c07_after(prop, tier, rc, gdt=False):
+    """Engine M: release-profile semantics of the operators (C07) / state at a panic of GDT append (C14),
+    from MIR (tools/mir2smt.py)."""
     import json, os, shutil, subprocess, sys, time
     verif = os.path.dirname(os.path.dirname(os.path.abspath(__file__)))
     evdir = os.environ.get("VERIF_EVIDENCE_DIR") or os.path.join(verif, "evidence")
@@ -23,7 +28,7 @@ def _c07_after(prop, tier, rc):
     try:
         subprocess.check_call(["rsync", "-a", "--exclude", "/target", "--exclude", "/.git", "--exclude", "/testing", "/repo/", scratch + "/"])
         out = os.path.join(scratch, "m.json")
-        p = subprocess.run(["python3-vt", os.path.join(verif, "tools", "mir2smt.py"), scratch, out], capture_output=True, text=True, timeout=3000)
+        p = subprocess.run(["python3-vt", os.path.join(verif, "tools", "mir2smt.py"), scratch, out] + (["--gdt"] if gdt else []), capture_output=True, text=True, timeout=3000)
         if p.returncode != 0 or not os.path.exists(out):
             print(f"INCONCLUSIVE property={prop}: engine M failed: {p.stderr[-800:]}", flush=True)
             return rc if rc == 1 else 2
@@ -33,7 +38,7 @@ def _c07_after(prop, tier, rc):
         violated = [r for r in res if r["verdict"] == "violated"]
         rep = {}
         if violated:
-            p2 = subprocess.run(["python3-vt", "-c", "import sys, json; sys.path.insert(0, %r); import mir2smt; d = json.load(open(%r)); print(json.dumps(mir2smt.replay_release(%r, d['results'])))" % (os.path.join(verif, "tools"), out, scratch)],
+            p2 = subprocess.run(["python3-vt", "-c", "import sys, json; sys.path.insert(0, %r); import mir2smt; d = json.load(open(%r)); print(json.dumps(mir2smt.%s(%r, d['results'])))" % (os.path.join(verif, "tools"), out, "replay_gdt" if gdt else "replay_release", scratch)],
                                 capture_output=True, text=True, timeout=3000)
             try:
                 rep = json.loads(p2.stdout.strip().splitlines()[-1])
@@ -66,14 +71,15 @@ def _c07_after(prop, tier, rc):
             ev = json.load(open(evp))
             cov = ev["coverage"]
             cov["engine_M"] = dict(
-                what="rustc MIR (-C overflow-checks=off -C debug-assertions=off) of the operator functions, symbolically executed path by path into QF_BV; negated exact-or-panic obligation decided by z3 and cvc5",
+                what=("rustc MIR of GlobalDescriptorTable::append/push symbolically executed path by path from an arbitrary valid table state (MAX in {2,3,8}); obligation: on every panicking path the table state is the initial state, and append panics exactly when the descriptor does not fit; decided by z3 and cvc5" if gdt else
+                      "rustc MIR (-C overflow-checks=off -C debug-assertions=off) of the operator functions, symbolically executed path by path into QF_BV; negated exact-or-panic obligation decided by z3 and cvc5"),
                 obligations=len(res), holds=sum(r["verdict"] == "holds" for r in res), violated=len(violated), inconclusive=len(incon),
                 solvers="z3 %s + cvc5 (must agree)" % __import__("subprocess").run(["python3-vt", "-c", "import z3;print(z3.get_version_string())"], capture_output=True, text=True).stdout.strip(),
                 solver_time_s=round(sum(r.get("solver_s", 0) for r in res), 2), wall_s=round(time.time() - t0, 1),
                 functions_encoded=sorted({f for r in res for f in r.get("functions", [])}),
                 selftest=data["selftest"], mir_functions=data["mir_functions"],
                 results=[dict(obligation=r["obligation"], verdict=r["verdict"], paths=r.get("paths"), z3=r.get("z3"), cvc5=r.get("cvc5")) for r in res],
-                bounds="none (all 2^64 x 2^64 operand values, three page sizes)")
+                bounds=("all slot contents, lengths and descriptor words; MAX in {2,3,8}; Descriptor::dpl and SegmentSelector::new opaque" if gdt else "none (all 2^64 x 2^64 operand values, three page sizes)"))
             cov["evaluations"] += len(res)
             cov["obligations"] += len(res)
             cov["discharged"] += sum(r["verdict"] == "holds" for r in res)
@@ -140,7 +146,7 @@ PROPS = {
     "C20": K("c20", extra=["-Z", "stubbing"], bounds="no loop; all canonical table addresses x all CR3 x all slot contents; all 512 recursive indices x all pages of the three sizes",
              stubs=["S-addr: VirtAddr::new returns a harness-chosen symbolic canonical address for the table reference (called exactly once, asserted)"],
              trusted_base=["rustc->Kani->CBMC", "CaDiCaL", "overlay O1-O4", "ISA model (mov r,cr3)"]),
-    "C14": K("c14", bounds="one append from every valid table state, MAX in {1,2,3,8,9} (unwind MAX+2); all descriptors, all u16 selectors"),
+    "C14": K("c14", after=_c14_after, engine="K+M", technique="solver-based: Kani/CBMC bounded model checking + own MIR->SMT encoder (z3/cvc5) for the table state at a refused append", bounds="one append from every valid table state, MAX in {1,2,3,8,9} (unwind MAX+2); all descriptors, all u16 selectors"),
     "C15": K("c15", bounds="no loop; all 2^64 TSS addresses, all descriptor bit patterns"),
     "C16": K("c16", bounds="no loop (PAT: unwind 9); all prior register contents x all argument values; ISA model of ~35 instructions is the trusted base",
              assumptions=["architectural domain for decoders that panic on impossible raw values (SFMask/UCet/SCet/Star/Pat read are exercised after a typed write only)",
